@@ -252,6 +252,24 @@ var fragLib = []fragGen{
 			stages: stAny,
 		}
 	},
+	// 24: helpers taking texture and sampler parameters followed by more arguments
+	func(c *compCtx, k int) fragInst {
+		return fragInst{
+			globals: fmt.Sprintf("%s var ptx%d: texture_2d<f32>;\n%s var psm%d: sampler;\nfn sampleAt%d(t: texture_2d<f32>, s: sampler, uv: vec2<f32>, lod: f32) -> vec4<f32> { return textureSampleLevel(t, s, uv, lod); }\nfn sampleTwice%d(s: sampler, t: texture_2d<f32>, uv: vec2<f32>) -> f32 { return sampleAt%d(t, s, uv, 0.0).x + sampleAt%d(t, s, uv.yx, 1.0).y; }\n",
+				c.bind(), k, c.bind(), k, k, k, k, k),
+			body:   fmt.Sprintf("acc += sampleTwice%d(psm%d, ptx%d, vec2<f32>(acc, 0.25));\n", k, k, k),
+			stages: stAny,
+		}
+	},
+	// 25: depth textures sampled, gathered and loaded WITHOUT comparison
+	func(c *compCtx, k int) fragInst {
+		return fragInst{
+			globals: fmt.Sprintf("%s var dpt%d: texture_depth_2d;\n%s var dpa%d: texture_depth_2d_array;\n%s var dps%d: sampler;\n", c.bind(), k, c.bind(), k, c.bind(), k),
+			body: fmt.Sprintf("acc += textureSampleLevel(dpt%d, dps%d, vec2<f32>(0.5, acc), 0) + textureLoad(dpt%d, vec2<i32>(1, 2), 0) + textureGather(dpa%d, dps%d, vec2<f32>(0.5), i32(idx %% 2u)).x;\n",
+				k, k, k, k, k),
+			stages: stAny,
+		}
+	},
 }
 
 // push constants (at most one per module)
